@@ -280,6 +280,17 @@ def handle (f : List String) : String :=
       if entry = "api" then showGet (getAttr v name) else showGet (vmGetAttr m v name)
     | _, _, _ => "bad-case"
   | ["long", kind, len, a, b, c] => handleLong kind len a b c
+  | ["mg", lens, _types, _entry, k] =>
+    -- operands hold consecutive numbers: operand j = [offset_j, …, offset_j + len_j - 1]
+    let ls := ((lens.splitOn ",").filter (· ≠ "")).filterMap String.toNat?
+    let xss : List (List Nat) := (ls.foldl (fun (acc : List (List Nat) × Nat) n =>
+      (acc.1 ++ [(List.range n).map (· + acc.2)], acc.2 + n)) ([], 0)).1
+    match parseVal k with
+    | some key =>
+      match mergeGetItem xss key with
+      | some n => s!"elem:{n}"
+      | none => "undef"
+    | none => "bad-case"
   | _ => "bad-case"
 
 end Glue
@@ -306,10 +317,10 @@ def handle (line : String) : String :=
     match len.toNat?, parseChain suffix with
     | some len, some ops => s!"{case}\t{runChain true kind len ops}\t{runChain false kind len ops}"
     | _, _ => s!"{case}\tbad-case\tbad-case"
-  | "gs" :: _ | "gi" :: _ | "ga" :: _ | "long" :: _ =>
+  | "gs" :: _ | "gi" :: _ | "ga" :: _ | "long" :: _ | "mg" :: _ =>
     let r := Glue.handle (case.trimAscii.toString.splitOn " ")
     s!"{case}\t{r}\t-"
-  | "meta" :: _ => s!"{case}\t-\t-"
+  | "meta" :: _ | "dv" :: _ | "ds" :: _ => s!"{case}\t-\t-"
   | _ => s!"{case}\tbad-case\tbad-case"
 
 partial def loop (h : IO.FS.Stream) (out : IO.FS.Stream) : IO Unit := do
